@@ -250,6 +250,11 @@ def r2_determinism(repo, rep, f, ctx):
       if i.rule.startswith('R2/must-reset') or i.rule.startswith('R3/cached'):
         i.rule = 'R2/' + ('cache-invalidation' if 'must-reset' in i.rule else 'cached-method-pure')
         rep.instances.append(i)
+    sub = type(rep)(rep.prop, rep.tier, rep.repo)
+    c08.r4_reads_do_not_mutate(repo, sub, q)
+    for i in sub.instances:
+      i.rule = 'R2/read-does-not-mutate'
+      rep.instances.append(i)
 
 
 def float_order_shape(fo):
